@@ -127,9 +127,18 @@ def run(ctx):
       eq_sat = [g for g in inner if any(o == 'Eq' for o, a, b_, p in g.forms()) and 'outpoint' not in _cmp_names(g) and 'satpoint' in str(g.atom)]
       # same satpoint: continue only under self.reinscribe
       re_g = [g for g in inner if 'reinscribe' in g.slice().fields and g.pol is not None]
-      ctx.ob('R21.4', cb.n, 'same satpoint ⇒ error unless self.reinscribe', len(re_g) == 1 and re_g[0].pol is True, f'{[(g.atom, g.pol) for g in inner]}', where(cb, l.line))
+      # the arm taken when the wallet inscription sits on exactly the chosen satpoint: true edge of <SatPoint as PartialEq>::eq
+      same_arm = []
+      for c in cb.calls:
+        if c.is_('re:SatPoint as (core|std)::cmp::PartialEq>::eq$') and cb.strictly_reaches(l.bb, c.bb) and cb.reaches(c.bb, l.bb) and c.target is not None:
+          for lab, tgt in cb.switch_edges(c.target):
+            if lab == 'otherwise' or (lab != 0 and lab != 'otherwise'):
+              same_arm.append(tgt)
+      re_same = [g for g in re_g if any(cb.dominates(t, g.bb) for t in same_arm)]
+      ctx.ob('R21.4', cb.n, 'same satpoint ⇒ error unless self.reinscribe', len(re_same) == 1 and re_same[0].pol is True, f'{[(g.atom, g.pol) for g in inner]}', where(cb, l.line))
       op_g = [g for g in inner if any(o == 'Eq' and p is False and 'outpoint' in names_of(a) and 'outpoint' in names_of(b_) for o, a, b_, p in g.forms())]
-      ctx.ob('R21.4', cb.n, 'same outpoint, different sat ⇒ always an error', len(op_g) == 1, f'{[(g.atom, g.pol) for g in inner]}', where(cb, l.line))
+      ctx.ob('R21.4', cb.n, 'same outpoint, different sat ⇒ always an error (self.reinscribe is consulted only for the same satpoint)', len(op_g) == 1 and len(re_g) == len(re_same),
+             f'{[(g.atom, g.pol) for g in inner]}', where(cb, l.line))
   _r21_5(ctx, F, cb)
   _r21_6(ctx, F)
 
@@ -281,7 +290,28 @@ def _r21_6(ctx, F):
             names = {(o.kind, o.name, tuple(o.fields)[:1]) for o in oo}
             uses_post = any(o.kind == 'param' and o.name == 'self' and 'postages' in o.fields for o in oo)
             uses_idx = any(o.kind == 'call' and isym is not None and isym[0] == 'f' and ('call', o.call.bb) == isym[1] for o in oo) or any(o.kind == 'call' and o.call.is_('re:Range.*Iterator>::next$') for o in oo)
-            uses_insc = any(o.kind == 'param' and o.name == 'inscriptions' for o in oo)
+            # the summed values: walk the receiver chain down to its root
+            op_, chain = t['args'][0], []
+            for _ in range(12):
+              cs = [o for o in origins(b, op_, passthrough=()) if o.kind == 'call']
+              if len(cs) != 1:
+                break
+              chain.append(cs[0].call)
+              if not cs[0].call.args:
+                break
+              op_ = cs[0].call.args[0]
+            root = origins(b, op_)
+            uses_post = any(o.kind == 'param' and o.name == 'self' and 'postages' in o.fields for o in root)
+            uses_insc = any(o.kind == 'param' and o.name == 'inscriptions' for o in root)
+            side = []
+            for c2 in chain:
+              for a2 in c2.args[1:]:
+                side += deep_origins(b, a2, all_args=True)
+                for o in list(side):
+                  if o.kind == 'agg' and norm(o.agg.get('adt') or '').endswith('ops::Range'):
+                    for op2 in o.agg.get('ops', []):
+                      side += deep_origins(b, op2, all_args=True)
+            uses_idx = any(o.kind == 'call' and isym is not None and isym[0] == 'f' and ('call', o.call.bb) == isym[1] for o in side)
             to_sat = any(c.is_('bitcoin::Amount::to_sat') for cb_ in F.closures_of(b.n) for c in cb_.calls)
             oko = uses_post and uses_idx and not uses_insc and to_sat
             d = f'sum over {sorted(n for n in names if n[1])[:5]}'
